@@ -514,7 +514,7 @@ def _run_server(cfg) -> Dict[str, Any]:
         status, val = loop.run_main(main())
     loop.abandon()
     if status != "ok":
-        raise core.HarnessError(f"server harness did not finish: {status} {val!r}")
+        raise core.HarnessError(f"server harness did not finish: {status} {core.clean_repr(val)}")
     return {"outcome": "server:" + "+".join(sorted(outs)), "violations": J.viol, "counters": J.cnt, "emitter": J.emitter,
             "wire_digest": J.h.hexdigest()}
 
@@ -605,7 +605,7 @@ def _run_stdio(cfg) -> Dict[str, Any]:
     errors = loop.collect_errors()
     loop.abandon()
     if status != "ok":
-        raise core.HarnessError(f"stdio harness did not finish: {status} {val!r}")
+        raise core.HarnessError(f"stdio harness did not finish: {status} {core.clean_repr(val)}")
     if info.get("spawned") != 1:
         raise core.HarnessError("seam missing: StdioClient did not call anyio.open_process")
     for p, kind, exp, lines in sent:
@@ -896,7 +896,7 @@ def _run_elicit_handler(cfg) -> Dict[str, Any]:
         status, val = loop.run_main(main())
     loop.abandon()
     if status != "ok":
-        raise core.HarnessError(f"elicitation harness did not finish: {status} {val!r}")
+        raise core.HarnessError(f"elicitation harness did not finish: {status} {core.clean_repr(val)}")
     outs = set()
     for o, title, st, req in sent:
         J.count("cases")
